@@ -245,7 +245,9 @@ func (v *verdict) evalField(f *fieldD, s *source, tree map[string]any, path stri
 			v.unk("non-optional struct %s absent", p)
 			v.evalFields(f.Sub.Fields, []*source{s}, map[string]any{}, p)
 		default:
-			if !optional && !f.HasDef {
+			if f.Kind == reflect.Slice && f.HasDef {
+				v.nDefault++
+			} else if !optional && !f.HasDef {
 				v.unk("non-optional %s %s absent", f.Kind, p)
 			}
 		}
@@ -739,6 +741,9 @@ func (c *comparer) field(f *fieldD, fv reflect.Value, s *source, tree map[string
 			c.fields(f.Sub.Fields, d, []*source{s}, map[string]any{}, p, lenientAbsent)
 		default:
 			if f.HasDef {
+				if f.Kind == reflect.Slice && f.DefList != nil {
+					c.defaultSlice(f, fv, p, null || lenientAbsent)
+				}
 				return
 			}
 			if d, ok := deref(fv); ok && d.Len() != 0 {
@@ -827,6 +832,39 @@ func (c *comparer) field(f *fieldD, fv reflect.Value, s *source, tree map[string
 			c.bad("supplied", f.Kind, p, "supplied %s, target holds %v", show(leaf), d.Interface())
 		}
 	}
+}
+
+// defaultSlice: an absent slice field with default=[a,b,c] holds exactly those elements.
+func (c *comparer) defaultSlice(f *fieldD, fv reflect.Value, p string, lenient bool) {
+	d, ok := deref(fv)
+	if lenient && (!ok || d.Len() == 0) {
+		return
+	}
+	if !ok {
+		c.bad("default", f.Kind, p, "absent slice with default=%s left nil", f.Def)
+		return
+	}
+	if d.Len() != len(f.DefList) {
+		c.bad("default", f.Kind, p, "absent slice with default=%s holds %d elements: %v", f.Def, d.Len(), showValue(d))
+		return
+	}
+	for i, text := range f.DefList {
+		want, wok := interpret(f.Elem.Kind, text)
+		if !wok {
+			return
+		}
+		ev, eok := deref(d.Index(i))
+		if !eok || !sameScalar(f.Elem.Kind, ev, want) {
+			c.bad("default", f.Kind, p, "absent slice with default=%s holds %v", f.Def, showValue(d))
+			return
+		}
+	}
+}
+
+func showValue(v reflect.Value) string {
+	var b strings.Builder
+	dumpValue(&b, v)
+	return b.String()
 }
 
 func (c *comparer) elems(e *fieldD, d reflect.Value, arr []any, s *source, p string) {
